@@ -2,9 +2,10 @@
 (* C33 — `arc::ArcStr` of `crates/aranya-policy-text/src/repr.rs`: the heap representation of
    `Text` / `Identifier`, an atomically reference counted string.
 
-   Every thread owns some handles to one shared allocation (it starts with one) and repeatedly
-   chooses to clone one of its handles, to read the text through one, or to drop one, until it
-   owns none.  One label per atomic access of the code (one yield point each under SCHED):
+   Every thread owns some handles to one shared allocation and repeatedly chooses to clone a
+   handle, to read the text through one, or to drop one, until it owns none.  Owner threads start
+   with one handle; borrower threads start with a shared reference to the first owner's handle
+   (so several threads can clone the SAME handle concurrently, also when the count is 1).  One label per atomic access of the code (one yield point each under SCHED):
 
      op     (harness) the thread picks its next operation
      inc    ArcStr::clone:  strong.fetch_add(1, Relaxed)
@@ -18,21 +19,37 @@
    Memory orderings are outside the model (sequentially consistent steps, DESIGN §9).      *)
 EXTENDS Integers, FiniteSets, TLC
 
-CONSTANTS Threads,     \* thread ids 1..N, each starts with one handle
+CONSTANTS Threads,     \* thread ids 1..N
+          Owners,      \* the threads that start with one handle; the others start with none but
+                       \* hold a shared reference (`&Text`) to the first owner's handle, through
+                       \* which they may clone and read until they give the reference back; the
+                       \* owner cannot drop that handle while it is borrowed (Rust lifetimes)
           MaxClones,   \* clones per thread
           MaxReads,    \* reads per thread
           FreeOn       \* 1 = the code
 
 (* --algorithm ArcStr {
-  variables count = Cardinality(Threads),   \* ArcStrInner::strong
+  variables count = Cardinality(Owners),    \* ArcStrInner::strong
             freed = 0,                      \* number of deallocs
+            borrowing = [th \in Threads |-> th \notin Owners],
             uaf = FALSE;                    \* monitor: an access after the dealloc
+  define {
+    Lender == CHOOSE o \in Owners : \A p \in Owners : o <= p
+    Lent == \E b \in Threads : borrowing[b]
+  }
+  macro Next() {
+    if (held > 0 \/ borrowing[self]) { goto op; } else { goto Done; };
+  }
   process (t \in Threads)
-    variables held = 1, clones = 0, reads = 0, old = 0;
+    variables held = IF self \in Owners THEN 1 ELSE 0, clones = 0, reads = 0, old = 0;
   {
   op:     either { await clones < MaxClones; goto inc; }
           or     { await reads < MaxReads; goto rd; }
-          or     { goto dec; };
+          or     { \* drop a handle — but not the lent one while it is borrowed
+                   await held > 0 /\ ~(self = Lender /\ held = 1 /\ Lent); goto dec; }
+          or     { \* give the shared reference back
+                   await borrowing[self]; borrowing[self] := FALSE;
+                   if (held = 0) { goto Done; } else { goto op; } };
   inc:    if (freed > 0) { uaf := TRUE; };
           count := count + 1; held := held + 1; clones := clones + 1;
           goto op;
@@ -41,25 +58,32 @@ CONSTANTS Threads,     \* thread ids 1..N, each starts with one handle
           goto op;
   dec:    if (freed > 0) { uaf := TRUE; };
           old := count; count := count - 1; held := held - 1;
-          if (old # FreeOn) { if (held > 0) { goto op; } else { goto Done; } };
+          if (old # FreeOn) { Next(); };
   fence:  skip;
   free:   freed := freed + 1;
-          if (held > 0) { goto op; };
+          Next();
   }
 } *)
 \* BEGIN TRANSLATION
-VARIABLES pc, count, freed, uaf, held, clones, reads, old
+VARIABLES pc, count, freed, borrowing, uaf
 
-vars == << pc, count, freed, uaf, held, clones, reads, old >>
+(* define statement *)
+Lender == CHOOSE o \in Owners : \A p \in Owners : o <= p
+Lent == \E b \in Threads : borrowing[b]
+
+VARIABLES held, clones, reads, old
+
+vars == << pc, count, freed, borrowing, uaf, held, clones, reads, old >>
 
 ProcSet == (Threads)
 
 Init == (* Global variables *)
-        /\ count = Cardinality(Threads)
+        /\ count = Cardinality(Owners)
         /\ freed = 0
+        /\ borrowing = [th \in Threads |-> th \notin Owners]
         /\ uaf = FALSE
         (* Process t *)
-        /\ held = [self \in Threads |-> 1]
+        /\ held = [self \in Threads |-> IF self \in Owners THEN 1 ELSE 0]
         /\ clones = [self \in Threads |-> 0]
         /\ reads = [self \in Threads |-> 0]
         /\ old = [self \in Threads |-> 0]
@@ -68,9 +92,18 @@ Init == (* Global variables *)
 op(self) == /\ pc[self] = "op"
             /\ \/ /\ clones[self] < MaxClones
                   /\ pc' = [pc EXCEPT ![self] = "inc"]
+                  /\ UNCHANGED borrowing
                \/ /\ reads[self] < MaxReads
                   /\ pc' = [pc EXCEPT ![self] = "rd"]
-               \/ /\ pc' = [pc EXCEPT ![self] = "dec"]
+                  /\ UNCHANGED borrowing
+               \/ /\ held[self] > 0 /\ ~(self = Lender /\ held[self] = 1 /\ Lent)
+                  /\ pc' = [pc EXCEPT ![self] = "dec"]
+                  /\ UNCHANGED borrowing
+               \/ /\ borrowing[self]
+                  /\ borrowing' = [borrowing EXCEPT ![self] = FALSE]
+                  /\ IF held[self] = 0
+                        THEN /\ pc' = [pc EXCEPT ![self] = "Done"]
+                        ELSE /\ pc' = [pc EXCEPT ![self] = "op"]
             /\ UNCHANGED << count, freed, uaf, held, clones, reads, old >>
 
 inc(self) == /\ pc[self] = "inc"
@@ -82,7 +115,7 @@ inc(self) == /\ pc[self] = "inc"
              /\ held' = [held EXCEPT ![self] = held[self] + 1]
              /\ clones' = [clones EXCEPT ![self] = clones[self] + 1]
              /\ pc' = [pc EXCEPT ![self] = "op"]
-             /\ UNCHANGED << freed, reads, old >>
+             /\ UNCHANGED << freed, borrowing, reads, old >>
 
 rd(self) == /\ pc[self] = "rd"
             /\ IF freed > 0
@@ -91,7 +124,7 @@ rd(self) == /\ pc[self] = "rd"
                        /\ uaf' = uaf
             /\ reads' = [reads EXCEPT ![self] = reads[self] + 1]
             /\ pc' = [pc EXCEPT ![self] = "op"]
-            /\ UNCHANGED << count, freed, held, clones, old >>
+            /\ UNCHANGED << count, freed, borrowing, held, clones, old >>
 
 dec(self) == /\ pc[self] = "dec"
              /\ IF freed > 0
@@ -102,23 +135,24 @@ dec(self) == /\ pc[self] = "dec"
              /\ count' = count - 1
              /\ held' = [held EXCEPT ![self] = held[self] - 1]
              /\ IF old'[self] # FreeOn
-                   THEN /\ IF held'[self] > 0
+                   THEN /\ IF held'[self] > 0 \/ borrowing[self]
                               THEN /\ pc' = [pc EXCEPT ![self] = "op"]
                               ELSE /\ pc' = [pc EXCEPT ![self] = "Done"]
                    ELSE /\ pc' = [pc EXCEPT ![self] = "fence"]
-             /\ UNCHANGED << freed, clones, reads >>
+             /\ UNCHANGED << freed, borrowing, clones, reads >>
 
 fence(self) == /\ pc[self] = "fence"
                /\ TRUE
                /\ pc' = [pc EXCEPT ![self] = "free"]
-               /\ UNCHANGED << count, freed, uaf, held, clones, reads, old >>
+               /\ UNCHANGED << count, freed, borrowing, uaf, held, clones, 
+                               reads, old >>
 
 free(self) == /\ pc[self] = "free"
               /\ freed' = freed + 1
-              /\ IF held[self] > 0
+              /\ IF held[self] > 0 \/ borrowing[self]
                     THEN /\ pc' = [pc EXCEPT ![self] = "op"]
                     ELSE /\ pc' = [pc EXCEPT ![self] = "Done"]
-              /\ UNCHANGED << count, uaf, held, clones, reads, old >>
+              /\ UNCHANGED << count, borrowing, uaf, held, clones, reads, old >>
 
 t(self) == op(self) \/ inc(self) \/ rd(self) \/ dec(self) \/ fence(self)
               \/ free(self)
@@ -146,7 +180,7 @@ NoUseAfterFree == ~uaf                                  \* never reads freed mem
 FreedOnce      == freed <= 1                            \* never frees twice
 CountNonNeg    == count >= 0
 CountIsHandles == (freed = 0) => count = Sum(held)      \* the count is the number of live handles
-NoEarlyFree    == (freed > 0) => \A th \in Threads : held[th] = 0
+NoEarlyFree    == (freed > 0) => \A th \in Threads : held[th] = 0 /\ ~borrowing[th]
 AllDone        == \A th \in Threads : pc[th] = "Done"
 NoLeak         == AllDone => freed = 1                  \* never leaks
 =============================================================================
